@@ -972,6 +972,11 @@ func (s *Sim) serveData(r *req, f Fault) {
 			s.retransAllowed[p.GetName()+"|"+p.GetFileHash()] = true
 			s.mu.Unlock()
 		}
+		if age := time.Since(p.GetFileTime()); s.conf.MinAge > 0 && age < s.conf.MinAge {
+			// the scan measures a file's age against its own start, and nothing is sent before a scan saw it
+			s.viol("C17", "too-young-file-transmitted", "bytes [%d,%d) of %s (version %.6s, modified %v ago) were transmitted although the minimum age is %v",
+				beg, end, p.GetName(), p.GetFileHash(), age, s.conf.MinAge)
+		}
 		file := &sts.Partial{Name: p.GetName(), Renamed: p.GetRenamed(), Prev: p.GetPrev(), Size: p.GetFileSize(),
 			Time: marshal.NanoTime{Time: p.GetFileTime()}, Hash: p.GetFileHash(), Source: "sim",
 			Parts: []*sts.ByteRange{{Beg: beg, End: end}}}
